@@ -408,7 +408,7 @@ struct BigInt {
     inline SizeT32 FindFirstBit() const noexcept {
         SizeT32 index = 0U;
 
-        while ((storage_[index] == 0) && (index <= index_)) {
+        while ((index < index_) && (storage_[index] == 0)) {
             ++index;
         }
 
